@@ -39,7 +39,12 @@ impl Lift for MappingOffset {
             let (key, slot, offset) = match (left.data(), right.data()) {
                 (RSVD::MappingIndex { key, slot, .. }, RSVD::KnownData { value })
                 | (RSVD::KnownData { value }, RSVD::MappingIndex { key, slot, .. }) => {
-                    (key, slot, value.into())
+                    // A projection is a member offset in words: the whole 256-bit constant has
+                    // to be a sensible one, not its low 64 bits
+                    let Ok(offset) = u32::try_from(value.value_le()) else {
+                        return None;
+                    };
+                    (key, slot, offset as usize)
                 }
                 _ => return None,
             };
